@@ -515,6 +515,10 @@ pub fn child_main(prop: &PropertyDef, tier: Tier, seed: u64, k: u64, n: u64) -> 
 /// same sequence of runs.
 pub fn child_run(prop: &PropertyDef, tier: Tier, seed: u64, k: u64, n: u64, stop: Option<(&str, u64)>, scenarios_before: bool, from_idx: u64) -> (Agg, Option<Outcome>) {
     let mut agg = Agg::default();
+    let t_start = Instant::now();
+    // under a broken tree runs can be very expensive (a hang costs the whole step bound): once
+    // violations are in hand, stop exploring well before the parent's wall-clock safety limit
+    let soft_limit_s = tier.pick(900, 7200) / 3;
     for s in &prop.scenarios {
         let total = s.runs(tier);
         let mut idx = k;
@@ -533,9 +537,15 @@ pub fn child_run(prop: &PropertyDef, tier: Tier, seed: u64, k: u64, n: u64, stop
             // enough failing runs collected in this scenario: go on with the next one (bounds the time spent
             // under a broken tree; later scenarios may hold the violations that replay in a fresh process)
             let is_stop = stop.map(|(sn, si)| s.name() == sn && idx == si).unwrap_or(false);
-            if agg.violations.len() >= viol_before + 24 && !(stop.is_some() && stop.unwrap().0 == s.name()) {
+            let in_stop_scenario = stop.is_some() && stop.unwrap().0 == s.name();
+            let hangs = agg.violations[viol_before..].iter().filter(|v| v.3.class.starts_with("hang") || v.3.class == "deadlock").count();
+            if (agg.violations.len() >= viol_before + 24 || hangs >= 4) && !in_stop_scenario {
                 agg.counters.insert("stopped_early_after_24_violating_runs".into(), 1);
                 break;
+            }
+            if stop.is_none() && !agg.violations.is_empty() && t_start.elapsed().as_secs() > soft_limit_s {
+                agg.counters.insert("stopped_early_soft_time_limit".into(), 1);
+                return (agg, None);
             }
             let mut g = Gen::new(run_seed(seed, prop.id, s.name(), idx));
             let params = s.generate(&mut g, tier, idx);
